@@ -75,7 +75,9 @@ func (h *UpdateHandler) Update(rw http.ResponseWriter, req *http.Request) {
 func (h *UpdateHandler) doUpdate(operation []byte) (*document.ResolutionResult, error) {
 	currentProtocol, err := h.protocol.Current()
 	if err != nil {
-		return nil, err
+		logger.Error("Internal server error", log.WithError(err))
+
+		return nil, common.NewHTTPError(http.StatusInternalServerError, err)
 	}
 
 	result, err := h.processor.ProcessOperation(operation, currentProtocol.Protocol().GenesisTime)
